@@ -12,9 +12,11 @@ import (
 	"runtime/pprof"
 	"sort"
 	"strings"
+	"time"
 
 	corev1 "k8s.io/api/core/v1"
 	"k8s.io/apimachinery/pkg/util/sets"
+	"sigs.k8s.io/controller-runtime/pkg/client"
 
 	v1 "sigs.k8s.io/karpenter/pkg/apis/v1"
 	"sigs.k8s.io/karpenter/pkg/cloudprovider"
@@ -24,6 +26,7 @@ import (
 	"sigs.k8s.io/karpenter/pkg/events"
 	"sigs.k8s.io/karpenter/pkg/scheduling"
 	disruptionutils "sigs.k8s.io/karpenter/pkg/utils/disruption"
+	"sigs.k8s.io/karpenter/pkg/utils/pdb"
 
 	"verifharness/kit"
 )
@@ -271,7 +274,7 @@ func runSingle(c *kit.Ctx, g genOut) {
 	wc.emit(c)
 	// validation of the proposal against a re-simulation after the world moved on
 	if len(cmds) == 1 {
-		runValidate(c, w, cmds[0])
+		runValidate(c, w, cmds[0], false)
 	}
 }
 
@@ -318,7 +321,7 @@ func runMulti(c *kit.Ctx, g genOut) {
 	runFilter(c, wc, cs)
 	wc.emit(c)
 	if len(cmds) == 1 {
-		runValidate(c, w, cmds[0])
+		runValidate(c, w, cmds[0], true)
 	}
 }
 
@@ -406,87 +409,218 @@ func genReqs(r *kit.Rand, nopts int) scheduling.Requirements {
 	return reqs
 }
 
-// runValidate: let the world move on after a proposal (nothing / an option becomes unavailable / a pod appears /
-// a pending pod that needs its own node), then compare validateCommand with the model on the re-simulation.
-func runValidate(c *kit.Ctx, w *world, cmd disruption.Command) {
-	r := c.Rand
-	change := "none"
-	switch r.Intn(5) {
-	case 1:
+const validationTTL = 15 * time.Second // commandValidationDelay
+
+// duringTTL runs validate (which blocks on the FakeClock for the validation TTL), lets the world move on while it
+// waits, then advances the clock past the TTL.
+func duringTTL(w *world, change func(), validate func()) {
+	done := make(chan struct{})
+	go func() { defer close(done); validate() }()
+	for i := 0; !w.clk.HasWaiters(); i++ {
+		select {
+		case <-done: // returned without waiting
+			change()
+			return
+		default:
+		}
+		if i > 200000 {
+			panic("validator never waited on the clock")
+		}
+		time.Sleep(50 * time.Microsecond)
+	}
+	change()
+	w.clk.Step(validationTTL + time.Second)
+	<-done
+}
+
+func (w *world) addPendingPod(name string, cpum int) {
+	pod := w.mkPod(podSpec{Name: name, CPUm: cpum}, "", "")
+	pod.Status.Conditions = []corev1.PodCondition{{Type: corev1.PodScheduled, Reason: corev1.PodReasonUnschedulable, Status: corev1.ConditionFalse}}
+	pod.Status.Phase = corev1.PodPending
+	kit.Apply(w.ctx, w.c, pod)
+	if err := w.cluster.UpdatePod(w.ctx, pod); err != nil {
+		panic(err)
+	}
+}
+
+func (w *world) bindPod(p podSpec, node string) {
+	pod := w.mkPod(p, node, node)
+	kit.Apply(w.ctx, w.c, pod)
+	if err := w.cluster.UpdatePod(w.ctx, pod); err != nil {
+		panic(err)
+	}
+}
+
+// deletePodOn removes one pod of the node from the API and the cluster state; false if the node runs none.
+func (w *world) deletePodOn(node string) bool {
+	pods := &corev1.PodList{}
+	if err := w.c.List(w.ctx, pods, client.MatchingFields{"spec.nodeName": node}); err != nil {
+		panic(err)
+	}
+	if len(pods.Items) == 0 {
+		return false
+	}
+	sort.Slice(pods.Items, func(i, j int) bool { return pods.Items[i].Name < pods.Items[j].Name })
+	p := &pods.Items[0]
+	if err := w.c.Delete(w.ctx, p); err != nil {
+		panic(err)
+	}
+	w.cluster.DeletePod(client.ObjectKeyFromObject(p))
+	return true
+}
+
+// boundNow: the reschedulable pods bound to the given nodes as the API has them now.
+func (w *world) boundNow(nodes []string) []*corev1.Pod {
+	limits, err := pdb.NewLimits(w.ctx, w.c)
+	if err != nil {
+		panic(err)
+	}
+	var out []*corev1.Pod
+	for _, n := range nodes {
+		pods := &corev1.PodList{}
+		if err := w.c.List(w.ctx, pods, client.MatchingFields{"spec.nodeName": n}); err != nil {
+			panic(err)
+		}
+		for i := range pods.Items {
+			if p := &pods.Items[i]; limits.IsCurrentlyReschedulable(p, w.clk, w.recorder) {
+				out = append(out, p)
+			}
+		}
+	}
+	return out
+}
+
+// worldChange picks what happens during the validation TTL.
+func worldChange(r *kit.Rand, w *world, cmd disruption.Command) (string, func()) {
+	target := kit.Pick(r, cmd.Candidates).Name()
+	switch r.Intn(10) {
+	case 0:
 		if len(cmd.Replacements) == 1 && len(cmd.Replacements[0].InstanceTypeOptions) > 0 {
 			gone := kit.Pick(r, cmd.Replacements[0].InstanceTypeOptions).Name
+			return "replacement_option_unavailable", func() {
+				w.rebuildCatalog(func(it *itSpec) {
+					if it.Name == gone {
+						for i := range it.Offs {
+							it.Offs[i].Avail = false
+						}
+					}
+				})
+			}
+		}
+	case 1, 2: // a pod is bound straight to a candidate and has nowhere else to go (too big, or pinned)
+		p := podSpec{Name: "late-0", CPUm: kit.Pick(r, []int{7000, 15000, 40000})}
+		if r.Bool() {
+			p = podSpec{Name: "late-0", CPUm: 300, Pin: true}
+		}
+		return "pod_bound_to_candidate:no_room_elsewhere", func() { w.bindPod(p, target) }
+	case 3, 4: // a pod is bound to a candidate and probably fits the replacement / the other nodes
+		p := podSpec{Name: "late-0", CPUm: kit.Pick(r, []int{100, 300, 900, 2500})}
+		return "pod_bound_to_candidate:small", func() { w.bindPod(p, target) }
+	case 5:
+		return "pod_deleted_from_candidate", func() { w.deletePodOn(target) }
+	case 6:
+		return "candidate_nominated", func() { w.cluster.NominateNodeForPod(w.ctx, providerID(target)) }
+	case 7:
+		return "candidate_marked_for_deletion", func() { w.cluster.MarkForDeletion(providerID(target)) }
+	case 8:
+		cpu := kit.Pick(r, []int{500, 15000})
+		return "pending_pod_added", func() { w.addPendingPod("late-pending", cpu) }
+	case 9:
+		return "many_offerings_unavailable", func() {
 			w.rebuildCatalog(func(it *itSpec) {
-				if it.Name == gone {
+				if r.Chance(1, 2) {
 					for i := range it.Offs {
-						it.Offs[i].Avail = false
+						if r.Chance(1, 2) {
+							it.Offs[i].Avail = false
+						}
 					}
 				}
 			})
-			change = "replacement_option_unavailable"
 		}
-	case 2:
-		pod := w.mkPod(podSpec{Name: "late-0", CPUm: kit.Pick(r, []int{500, 3000, 7000})}, cmd.Candidates[0].Name(), cmd.Candidates[0].Name())
-		kit.Apply(w.ctx, w.c, pod)
-		if err := w.cluster.UpdatePod(w.ctx, pod); err != nil {
-			panic(err)
-		}
-		change = "pod_added_to_candidate"
-	case 3:
-		pod := w.mkPod(podSpec{Name: "late-pending", CPUm: kit.Pick(r, []int{500, 15000})}, "", "")
-		pod.Status.Conditions = []corev1.PodCondition{{Type: corev1.PodScheduled, Reason: corev1.PodReasonUnschedulable, Status: corev1.ConditionFalse}}
-		pod.Status.Phase = corev1.PodPending
-		kit.Apply(w.ctx, w.c, pod)
-		if err := w.cluster.UpdatePod(w.ctx, pod); err != nil {
-			panic(err)
-		}
-		change = "pending_pod_added"
-	case 4:
-		w.rebuildCatalog(func(it *itSpec) {
-			if r.Chance(1, 2) {
-				for i := range it.Offs {
-					if r.Chance(1, 2) {
-						it.Offs[i].Avail = false
-					}
-				}
-			}
-		})
-		change = "many_offerings_unavailable"
 	}
+	return "none", func() {}
+}
+
+// runValidate: a proposal was computed; while the REAL validator waits for the validation TTL the world moves on; then
+// everything the oracle and the model read is taken from the world as it is at validation time: the candidates rebuilt
+// from the cluster state, the pods bound to the candidate nodes in the API, the harness's simulation over them.
+func runValidate(c *kit.Ctx, w *world, cmd disruption.Command, multi bool) {
 	cons := disruption.MakeConsolidation(w.clk, w.cluster, w.c, w.prov, w.cp, w.recorder, w.queue)
 	val := disruption.NewSingleConsolidationValidator(cons)
-	// the candidates as validation sees them now (by name)
-	all := w.candidatesWith(func(context.Context, *disruption.Candidate) bool { return true }, disruption.GracefulDisruptionClass)
-	want := sets.New(names(cmd.Candidates)...)
+	kind := "single"
+	if multi {
+		val = disruption.NewMultiConsolidationValidator(cons)
+		kind = "multi"
+	}
+	change, apply := worldChange(c.Rand, w, cmd)
+	var verr error
+	duringTTL(w, apply, func() { _, verr = val.Validate(w.ctx, cmd, validationTTL) })
+	if verr != nil && !disruption.IsValidationError(verr) {
+		panic(fmt.Sprintf("Validate: %v", verr))
+	}
+	accepted := verr == nil
+	// ---- the world at validation time
+	proposed := names(cmd.Candidates)
+	want := sets.New(proposed...)
+	present := 0
+	for _, cd := range w.candidatesWith(cons.ShouldDisrupt, disruption.GracefulDisruptionClass) {
+		if want.Has(cd.Name()) {
+			present++
+		}
+	}
+	nominated := false
+	perPool := map[string]int{}
+	for _, cd := range cmd.Candidates {
+		nominated = nominated || w.cluster.IsNodeNominated(cd.ProviderID())
+		perPool[cd.NodePool.Name]++
+	}
+	budgets, err := disruption.BuildDisruptionBudgetMapping(w.ctx, w.cluster, w.clk, w.c, w.cp, w.recorder, v1.DisruptionReasonUnderutilized)
+	if err != nil {
+		panic(err)
+	}
+	budgetOK := true
+	for pool, n := range perPool {
+		budgetOK = budgetOK && budgets[pool] >= n
+	}
 	var cur []*disruption.Candidate
-	for _, cd := range all {
+	for _, cd := range w.candidatesWith(func(context.Context, *disruption.Candidate) bool { return true }, disruption.GracefulDisruptionClass) {
 		if want.Has(cd.Name()) {
 			cur = append(cur, cd)
 		}
 	}
-	if len(cur) != len(cmd.Candidates) {
-		c.Count("validate/skipped:candidate_gone")
-		return
+	simG := "(mkCS [] [])"
+	var problems []string
+	if len(cur) == len(proposed) {
+		cn := candSet(cur)
+		res1 := w.simulate(cur...)
+		simG, problems = w.gSim(res1, cn)
+		if w.simKey(res1, cn) != w.simKey(w.simulate(cur...), cn) {
+			c.Count("skipped:simulation_not_reproducible")
+			return
+		}
 	}
-	cn := candSet(cur)
-	res1 := w.simulate(cur...)
-	k1 := w.simKey(res1, cn)
-	simG, problems := w.gSim(res1, cn)
-	err := val.VerifValidateCommand(w.ctx, cmd, cur)
-	if err != nil && !disruption.IsValidationError(err) {
-		panic(fmt.Sprintf("validateCommand: %v", err))
+	bound := w.boundNow(proposed)
+	ids := make([]int, 0, len(bound))
+	for _, p := range bound {
+		id, ok := w.podIDs[p.Name]
+		if !ok {
+			problems = append(problems, "unknown pod bound to a candidate: "+p.Name)
+		}
+		ids = append(ids, id)
 	}
-	if k1 != w.simKey(w.simulate(cur...), cn) {
-		c.Count("skipped:simulation_not_reproducible")
-		return
-	}
+	sort.Ints(ids)
 	var repl []string
 	if len(cmd.Replacements) > 0 {
 		repl = itNames(cmd.Replacements[0].InstanceTypeOptions)
 	}
-	in := caseJSON{Kind: "validate", World: w.spec, Cands: names(cur), Extra: map[string]interface{}{"change": change, "replacement": repl}}
-	key := fmt.Sprintf("validate:%s:valid=%v", change, err == nil)
-	c.Count("unit/" + key)
-	id := c.AddCase(fmt.Sprintf("CaseValidate %d%%nat %s %s %s %s", len(cmd.Replacements), gstrs(repl), w.gCatalog(allMinKeys), simG, kit.GBool(err == nil)), in, key)
+	in := caseJSON{Kind: "validated:" + kind, World: w.spec, Cands: proposed, Extra: map[string]interface{}{
+		"during_ttl": change, "decision": string(cmd.Decision()), "replacement": repl, "accepted": accepted, "validation_error": fmt.Sprint(verr),
+		"pods_bound_to_candidates_at_validation": len(ids)}}
+	key := fmt.Sprintf("validated/%s:%s:accepted=%v", kind, change, accepted)
+	c.Count(key)
+	id := c.AddCase(fmt.Sprintf("CaseValidated %d%%nat %s %s %s %s %s %s %s %s", len(cmd.Replacements), gstrs(repl), w.gCatalog(allMinKeys),
+		kit.GBool(present == len(proposed)), kit.GBool(nominated), kit.GBool(budgetOK), simG,
+		kit.GListOf(ids, func(i int) string { return gz(int64(i)) }), kit.GBool(accepted)), in, key)
 	for _, p := range problems {
 		c.Fail(id, "corr:projection: "+p, "", in)
 	}
@@ -496,14 +630,10 @@ func runEmpty(c *kit.Ctx, g genOut, forceReal bool) {
 	w := newWorld(g.spec)
 	cons := disruption.MakeConsolidation(w.clk, w.cluster, w.c, w.prov, w.cp, w.recorder, w.queue)
 	real := c.Rand.Bool() || forceReal
-	var val disruption.Validator = passValidator{}
-	if real {
-		val = nowValidator{inner: disruption.NewEmptinessValidator(cons)}
-	}
-	meth := disruption.NewEmptiness(cons, disruption.WithValidator(val))
+	meth := disruption.NewEmptiness(cons, disruption.WithValidator(passValidator{}))
 	// hand Emptiness every disruptable node (it re-checks IsEmpty itself), or only what it asks for
 	filter := meth.ShouldDisrupt
-	if c.Rand.Bool() && !real {
+	if c.Rand.Bool() {
 		filter = func(context.Context, *disruption.Candidate) bool { return true }
 	}
 	cs := w.candidatesWith(filter, meth.Class())
@@ -531,7 +661,49 @@ func runEmpty(c *kit.Ctx, g genOut, forceReal bool) {
 	if withPods {
 		c.Count("shape:empty_node_with_nonpositive_cost_pods")
 	}
-	c.AddCase(fmt.Sprintf("CaseEmpty %s %s", given, gstrs(sel)), caseJSON{Kind: "emptiness", World: w.spec, Cands: names(cs), Extra: map[string]bool{"real_validator": real}}, fmt.Sprint(key, withPods))
+	c.AddCase(fmt.Sprintf("CaseEmpty %s %s", given, gstrs(sel)), caseJSON{Kind: "emptiness", World: w.spec, Cands: names(cs)}, fmt.Sprint(key, withPods))
+	if !real || len(cmds) != 1 {
+		return
+	}
+	// the real EmptinessValidator after the TTL, the world having moved on
+	cmd := cmds[0]
+	target := kit.Pick(c.Rand, cmd.Candidates).Name()
+	change, apply := "none", func() {}
+	if !forceReal {
+		switch c.Rand.Intn(6) {
+		case 0:
+			change, apply = "pod_bound_to_candidate:default_cost", func() { w.bindPod(podSpec{Name: "late-0", CPUm: 200}, target) }
+		case 1:
+			change, apply = "pod_bound_to_candidate:zero_cost", func() { w.bindPod(podSpec{Name: "late-0", CPUm: 200, Del: ptr(int64(-134217728))}, target) }
+		case 2:
+			change, apply = "candidate_nominated", func() { w.cluster.NominateNodeForPod(w.ctx, providerID(target)) }
+		case 3:
+			change, apply = "candidate_marked_for_deletion", func() { w.cluster.MarkForDeletion(providerID(target)) }
+		case 4:
+			change, apply = "pod_deleted_from_candidate", func() { w.deletePodOn(target) }
+		}
+	}
+	val := disruption.NewEmptinessValidator(cons)
+	var out disruption.Command
+	var verr error
+	duringTTL(w, apply, func() { out, verr = val.Validate(w.ctx, cmd, validationTTL) })
+	if verr != nil && !disruption.IsValidationError(verr) {
+		panic(fmt.Sprintf("emptiness Validate: %v", verr))
+	}
+	cur := w.candidatesWith(func(context.Context, *disruption.Candidate) bool { return true }, meth.Class())
+	curG := kit.GListOf(cur, func(cd *disruption.Candidate) string {
+		return kit.GPair(w.gCand(cd), kit.GBool(w.cluster.IsNodeNominated(cd.ProviderID())))
+	})
+	outG := "None"
+	if verr == nil {
+		kept := names(out.Candidates)
+		sort.Strings(kept)
+		outG = "(Some " + gstrs(kept) + ")"
+	}
+	vkey := fmt.Sprintf("validated/empty:%s:accepted=%v", change, verr == nil)
+	c.Count(vkey)
+	c.AddCase(fmt.Sprintf("CaseEmptyValidated %s %s %s", gstrs(names(cmd.Candidates)), curG, outG),
+		caseJSON{Kind: "validated:emptiness", World: w.spec, Cands: names(cmd.Candidates), Extra: map[string]interface{}{"during_ttl": change, "validation_error": fmt.Sprint(verr)}}, vkey)
 }
 
 // ---- pure units
@@ -633,7 +805,8 @@ func main() {
 		"Emptiness.ComputeCommands / Candidate.IsEmpty / computeRescheduleDisruptionCost = C06.Model.emptiness",
 		"EvictionCost = C06.Model.eviction_cost",
 		"resolveNodePrice (Candidate.Price) = C06.Model.cand_price",
-		"validation.validateCommand = C06.Model.validate_command",
+		"ConsolidationValidator.Validate after the TTL, on the world as it is then (validateCandidates + mapCandidates + validateCommand) = C06.Model.validate",
+		"EmptinessValidator.Validate after the TTL = C06.Model.validate_empty",
 		"SimulateScheduling post-processing + Results.AllNonPendingPodsScheduled = C06.Model.errored / all_scheduled (through compute)",
 	}
 	c.Meta.Extra = map[string]interface{}{"assumptions": []string{
